@@ -57,6 +57,8 @@ pub struct PolSt {
     pub declined_after_status: u64,
     /// a fault was injected into an exchange of the current operation
     pub faulted: bool,
+    /// outcome chosen for each kind of main request during the current operation
+    pub picked: Vec<(String, Outcome)>,
 }
 
 pub struct HistPolicy {
@@ -76,7 +78,14 @@ impl Policy for HistPolicy {
             }
         };
         let mut outcome = Outcome::Ok;
-        if st.lazy {
+        // a command the client sends again within the same call (after a fault or a time-out) gets the
+        // outcome chosen for it the first time: one choice per call and exchange, not one per attempt
+        // (a client that re-sends up to 20 times would otherwise multiply the executions by menu^20)
+        let again = if x == Xch::Main { st.picked.iter().find(|(k, _)| *k == req.key).map(|(_, o)| o.clone()) } else { None };
+        if let (true, Some(o)) = (st.lazy, again.clone()) {
+            outcome = o;
+        }
+        if st.lazy && again.is_none() {
             match (x, req.key.as_str()) {
                 (Xch::Main, "Reservation") => outcome = pick(&st.p.reservation_menu, ctx, "reservation-outcome"),
                 (Xch::Main, "PartialReversal") => outcome = pick(&st.p.commit_menu, ctx, "commit-outcome"),
@@ -91,6 +100,9 @@ impl Policy for HistPolicy {
                 }
                 _ => {}
             }
+        }
+        if st.lazy && x == Xch::Main && again.is_none() {
+            st.picked.push((req.key.clone(), outcome.clone()));
         }
         let issued = if req.key == "Reservation" && matches!(outcome, Outcome::Ok | Outcome::OkExtraStatus) { Some(t.free_receipt()) } else { None };
         // for the model a reservation declined after a status information is a declined reservation
@@ -176,7 +188,7 @@ pub struct HistOut {
 pub fn history(ctx: &mut Ctx, p: &HistParams, first: Option<usize>, acc: &mut Acc) -> HistOut {
     let table: &'static Table = vcore::layout::shipped_static();
     let sh: Sh = Rc::new(RefCell::new(std::mem::replace(ctx, Ctx::new(vec![], vec![], 0))));
-    let st = Rc::new(RefCell::new(PolSt { op: Op::Configure, tracker: Tracker::new(), chosen: vec![], eod_chosen: None, reported: None, lazy: false, p: p.clone(), declined_after_status: 0, faulted: false }));
+    let st = Rc::new(RefCell::new(PolSt { op: Op::Configure, tracker: Tracker::new(), chosen: vec![], eod_chosen: None, reported: None, lazy: false, p: p.clone(), declined_after_status: 0, faulted: false, picked: vec![] }));
     let mut out = HistOut { c07: vec![], c19: vec![], c09: vec![], trace: vec![], final_state: 0 };
     {
         let sim = Sim::new(sh.clone(), Box::new(HistPolicy { st: st.clone() }));
@@ -208,6 +220,7 @@ pub fn history(ctx: &mut Ctx, p: &HistParams, first: Option<usize>, acc: &mut Ac
                         s.eod_chosen = None;
                         s.reported = None;
                         s.faulted = false;
+                        s.picked.clear();
                     }
                     let (r0, e0) = sim.w.borrow().t.traffic_marker();
                     let res = run_op(&sim, &mut feig, &op);
